@@ -97,8 +97,8 @@ type kvCtx struct {
 	leafs    int
 	closed   bool
 	computes int
-	copies   int // copy nodes executed by Compute
-	maxCopy  int // largest number of elements moved by one executed copy
+	copies   int         // copy nodes executed by Compute
+	maxCopy  int         // largest number of elements moved by one executed copy
 	done     []*kvTensor // executed copy nodes
 	created  int
 }
